@@ -14,7 +14,7 @@ use crate::printer::Printer;
 use crate::work::WorkError;
 
 use super::cmd::Instr;
-use super::gen::{self, GraphSpec, Names, Op, RuleSpec, Sched, CONTENT_POOL};
+use super::gen::{self, GraphSpec, Names, Op, RuleSpec, Sched};
 use super::model::{MRule, Model, RefEval};
 use super::sched::{self, Events, Policy};
 use super::vsys::{Clock, CmdExec, CrashPlan, LogEntry, Snapshot, VerifSystem};
@@ -342,7 +342,7 @@ impl World
                 let l = self.leaves[gen::pick(*leaf, self.leaves.len())].clone();
                 if super::model::under_missing_dir(&self.model.missing_dirs, &l) { Applied::Noop } else
                 {
-                    self.set_leaf(&l, CONTENT_POOL[*content as usize % 5].as_bytes().to_vec());
+                    self.set_leaf(&l, gen::content(*content));
                     Applied::UserAction(format!("edit {}", l))
                 }
             }
@@ -624,7 +624,7 @@ impl World
                 let p = ts[gen::pick(*t, ts.len())].clone();
                 if super::model::under_missing_dir(&self.model.missing_dirs, &p) { Applied::Noop } else
                 {
-                    self.sys.h_write(&p, CONTENT_POOL[*content as usize % 5].as_bytes());
+                    self.sys.h_write(&p, &gen::content(*content));
                     Applied::UserAction(format!("tamper {}", p))
                 }
             }
@@ -637,7 +637,7 @@ impl World
                 {
                     self.old_stamps += 1;
                     let mtime = super::vsys::EPOCH_US - 1_000_000 - self.old_stamps;
-                    self.sys.h_write_at(&p, CONTENT_POOL[*content as usize % 5].as_bytes(), mtime);
+                    self.sys.h_write_at(&p, &gen::content(*content), mtime);
                     Applied::UserAction(format!("replace {} by an older file", p))
                 }
             }
